@@ -20,6 +20,7 @@ def evalT (fn : String) (args : List String) (impl : String) : Option Verdict :=
   | "gtpu.encode" => evalGtpu args impl
   | "fd.parse" => evalFlowDesc args impl
   | "fd.rule" => evalFlowRule args impl
+  | "fd.pack" => evalFlowPack args impl
   | "mal.send" =>
     some { model := "alive",
            propFails := if impl == "alive" then [] else
